@@ -106,13 +106,58 @@ fn main() {
         sink.merge(struct_sweep(&run, &[&SIGNED_OLD], &big_so, 1, &sfx, 24, &no_extra));
     }
     // the same structures with other opaque contents (all zero, 00 ff.., leading zero before a high bit, all ff, 80 00..)
-    for style in [1u8, 2, 3, 4, 5] {
+    for style in [1u8, 2, 3, 4, 5, 6, 7, 8, 9] {
         use vcommon::en::with_fill_style as wfs;
         sink.merge(struct_sweep(&run, &[&DH_PARAMS], &wfs(style, || cat::dh_params(false)), run.tier.pick(0, 1), &sfx, 48, &no_extra));
         sink.merge(struct_sweep(&run, &[&ECDH_PARAMS, &EC_PARAMETERS], &wfs(style, cat::ecdh_params), run.tier.pick(0, 1), &sfx, 48, &no_extra));
         sink.merge(struct_sweep(&run, &[&EC_POINT], &wfs(style, cat::ec_points), 0, &sfx, 32, &no_extra));
         sink.merge(struct_sweep(&run, &[&SIGNED], &wfs(style, || cat::signatures(true, false)), run.tier.pick(0, 1), &sfx, 48, &no_extra));
         sink.merge(struct_sweep(&run, &[&SIGNED_OLD], &wfs(style, || cat::signatures(false, false)), run.tier.pick(0, 1), &sfx, 48, &no_extra));
+    }
+
+    // every size of each variable-length field
+    for which in 0..3usize {
+        let b = move |n: usize| {
+            let mut w = W::new();
+            for k in 0..3 {
+                let len = if k == which { n } else { 2 };
+                w.block(2, "dh_len", |w| {
+                    w.fill(len, 0xd1 + k as u8);
+                });
+            }
+            w
+        };
+        sink.merge(size_sweep(&run, &[&DH_PARAMS], 65535, &b, &no_extra));
+    }
+    for with_alg in [true, false] {
+        let b = move |n: usize| {
+            let mut w = W::new();
+            if with_alg {
+                w.u8(4).u8(3);
+            }
+            w.block(2, "sig_len", |w| {
+                w.fill(n, 0x30);
+            });
+            w
+        };
+        sink.merge(size_sweep(&run, &[if with_alg { &SIGNED } else { &SIGNED_OLD }], 65535, &b, &no_extra));
+    }
+    for which in 0..6usize {
+        let b = move |n: usize| {
+            let mut w = W::new();
+            w.u8(1);
+            for k in 0..6 {
+                let len = if k == which { n } else { 1 + k };
+                w.block(1, "ec_field_len", |w| {
+                    w.fill(len, 0xa0 + k as u8);
+                });
+            }
+            w.block(1, "ec_point_len", |w| {
+                w.fill(3, 4);
+            });
+            w
+        };
+        sink.merge(size_sweep(&run, &[&ECDH_PARAMS, &EC_PARAMETERS], 255, &b, &no_extra));
     }
 
     // content + signature, both flag values, both signature encodings
@@ -139,7 +184,7 @@ fn main() {
     sink.merge(struct_sweep(&run, &[&P_ECDH_NEW, &P_ECDH_OLD], &pairs_ecdh, 1, &sfx, 32, &no_extra));
     sink.merge(struct_sweep(&run, &[&P_PT_NEW, &P_PT_OLD], &pairs_pt, 1, &sfx, 32, &no_extra));
 
-    // complete sweeps: all 65536 named groups, all 256 curve types, all 256 x 256 algorithm pairs
+    // every size of each DH field and signature (0..65535) and of each explicit-prime field (0..255) with the others fixed (quick tier: the size set of sweep::sizes); complete sweeps: all 65536 named groups, all 256 curve types, all 256 x 256 algorithm pairs
     let mut sweeps: Vec<W> = Vec::new();
     for g in 0..=65535u32 {
         let mut w = W::new();
